@@ -10,11 +10,19 @@ demo = os.path.join(out, "demo%s_test.go" % n)
 env = dict(os.environ, GOFLAGS="-mod=mod", GOPROXY="off", GOSUMDB="off", GOTOOLCHAIN="local")
 res = {"property": prop, "n": n}
 first = open(demo).readline()
-m = re.search(r"[Bb]elongs in (\S+?)[\s;,(]", first) or re.search(r"[Bb]elongs in (\S+)", first)
-pkgdir = m.group(1).rstrip(".;,")
-tags = re.search(r"-tags[ =](\S+)", first)
-run = re.search(r"-run[ =]'?\"?([\w^$|]+)", first)
-race = "-race" in first
+head = "".join(open(demo).readlines()[:6])
+m = re.findall(r"\s\./([\w./-]+)", head)
+if m:
+    pkgdir = m[-1].rstrip("./")
+else:
+    m2 = re.search(r"[Bb]elongs in (\S+?)[\s;,(]", first) or re.search(r"[Bb]elongs in (\S+)", first)
+    pkgdir = m2.group(1).rstrip(".;,/")
+first = head
+cmdm = re.search(r"go test(.*?)\s\./[\w./-]+", first, re.S)
+cmdtxt = cmdm.group(1) if cmdm else first
+tags = re.search(r"-tags[ =](\S+)", cmdtxt)
+run = re.search(r"-run[ =]'?\"?([\w^$|]+)", cmdtxt)
+race = "-race" in cmdtxt
 res["pkgdir"] = pkgdir
 wt = "/tmp/seedv-%s-%s" % (prop, n)
 subprocess.run(["git", "-C", "/repo", "worktree", "remove", "--force", wt], capture_output=True)
